@@ -12,6 +12,71 @@ pub struct AllocTracker {
 #[derive(Debug)]
 struct AllocTrackerInner {
     bytes_left: AtomicUsize,
+    #[cfg(jxl_oxide_verif)]
+    verif: VerifState,
+}
+
+/// Verification hook H1: allocation counter, fault injection point and shadow accounting.
+#[cfg(jxl_oxide_verif)]
+#[derive(Debug)]
+struct VerifState {
+    /// number of `alloc` calls so far
+    count: AtomicUsize,
+    /// the `fail_from`-th (0-based) and every later `alloc` call fails
+    fail_from: AtomicUsize,
+    /// bytes handed out and not yet released (shadow of the budget)
+    outstanding: AtomicUsize,
+    /// initial limit + expansions - shrinks
+    limit_total: AtomicUsize,
+    /// set when `outstanding > limit_total` was observed
+    violated: AtomicUsize,
+}
+
+#[cfg(jxl_oxide_verif)]
+impl VerifState {
+    fn new(limit: usize) -> Self {
+        Self {
+            count: AtomicUsize::new(0),
+            fail_from: AtomicUsize::new(usize::MAX),
+            outstanding: AtomicUsize::new(0),
+            limit_total: AtomicUsize::new(limit),
+            violated: AtomicUsize::new(0),
+        }
+    }
+}
+
+#[cfg(jxl_oxide_verif)]
+impl AllocTracker {
+    /// Number of `alloc` calls made on this tracker so far.
+    pub fn verif_alloc_count(&self) -> usize {
+        self.inner.verif.count.load(Ordering::SeqCst)
+    }
+
+    /// Make the `n`-th (0-based, counted from tracker creation) and every later `alloc` fail.
+    /// `usize::MAX` disables the fault.
+    pub fn verif_set_fail_from(&self, n: usize) {
+        self.inner.verif.fail_from.store(n, Ordering::SeqCst);
+    }
+
+    /// Bytes currently handed out according to the shadow accounting.
+    pub fn verif_outstanding(&self) -> usize {
+        self.inner.verif.outstanding.load(Ordering::SeqCst)
+    }
+
+    /// Current total limit according to the shadow accounting.
+    pub fn verif_limit_total(&self) -> usize {
+        self.inner.verif.limit_total.load(Ordering::SeqCst)
+    }
+
+    /// Number of times `outstanding > limit_total` was observed right after an allocation.
+    pub fn verif_limit_violations(&self) -> usize {
+        self.inner.verif.violated.load(Ordering::SeqCst)
+    }
+
+    /// Bytes left in the real budget.
+    pub fn verif_bytes_left(&self) -> usize {
+        self.inner.bytes_left.load(Ordering::SeqCst)
+    }
 }
 
 impl AllocTracker {
@@ -20,6 +85,8 @@ impl AllocTracker {
         Self {
             inner: Arc::new(AllocTrackerInner {
                 bytes_left: AtomicUsize::new(bytes_left),
+                #[cfg(jxl_oxide_verif)]
+                verif: VerifState::new(bytes_left),
             }),
         }
     }
@@ -29,6 +96,13 @@ impl AllocTracker {
     /// Returns an error if the allocation exceeds the current limit.
     pub fn alloc<T>(&self, count: usize) -> Result<AllocHandle, crate::OutOfMemory> {
         let bytes = count * std::mem::size_of::<T>();
+        #[cfg(jxl_oxide_verif)]
+        {
+            let n = self.inner.verif.count.fetch_add(1, Ordering::SeqCst);
+            if n >= self.inner.verif.fail_from.load(Ordering::SeqCst) {
+                return Err(crate::OutOfMemory::new(bytes));
+            }
+        }
         let result = self.inner.bytes_left.fetch_update(
             Ordering::Relaxed,
             Ordering::Relaxed,
@@ -37,6 +111,14 @@ impl AllocTracker {
 
         match result {
             Ok(prev) => {
+                #[cfg(jxl_oxide_verif)]
+                {
+                    // after the budget was taken: outstanding can only under-estimate
+                    let now = self.inner.verif.outstanding.fetch_add(bytes, Ordering::SeqCst) + bytes;
+                    if now > self.inner.verif.limit_total.load(Ordering::SeqCst) {
+                        self.inner.verif.violated.fetch_add(1, Ordering::SeqCst);
+                    }
+                }
                 tracing::trace!(bytes, left = prev - bytes, "Created allocation handle");
                 Ok(AllocHandle {
                     bytes,
@@ -52,6 +134,8 @@ impl AllocTracker {
 
     /// Expands the current limit by `by_bytes` bytes.
     pub fn expand_limit(&self, by_bytes: usize) {
+        #[cfg(jxl_oxide_verif)]
+        self.inner.verif.limit_total.fetch_add(by_bytes, Ordering::SeqCst);
         self.inner.bytes_left.fetch_add(by_bytes, Ordering::Relaxed);
     }
 
@@ -67,6 +151,8 @@ impl AllocTracker {
         );
 
         if result.is_ok() {
+            #[cfg(jxl_oxide_verif)]
+            self.inner.verif.limit_total.fetch_sub(by_bytes, Ordering::SeqCst);
             Ok(())
         } else {
             Err(crate::OutOfMemory::new(by_bytes))
@@ -84,6 +170,9 @@ pub struct AllocHandle {
 impl Drop for AllocHandle {
     fn drop(&mut self) {
         let bytes = self.bytes;
+        // before the budget is returned
+        #[cfg(jxl_oxide_verif)]
+        self.inner.verif.outstanding.fetch_sub(bytes, Ordering::SeqCst);
         let prev = self.inner.bytes_left.fetch_add(bytes, Ordering::Relaxed);
         tracing::trace!(bytes, left = prev + bytes, "Released allocation handle");
         self.bytes = 0;
